@@ -27,16 +27,16 @@ func register(p *property) { registry[p.Meta.ID] = p }
 
 // Configuration families (every GOOS/GOARCH of `go tool dist list` that compiles the backend).
 var (
-	linuxQuick    = []Config{{"linux", "amd64"}}
-	linuxAll      = cfgs("linux", "386 amd64 arm arm64 loong64 mips mips64 mips64le mipsle ppc64 ppc64le riscv64 s390x")
-	kqueueQuick   = []Config{{"freebsd", "amd64"}, {"darwin", "arm64"}}
-	kqueueAll     = append(append(append(append(cfgs("freebsd", "386 amd64 arm arm64 riscv64"), cfgs("darwin", "amd64 arm64")...), cfgs("openbsd", "386 amd64 arm arm64 ppc64 riscv64")...), cfgs("netbsd", "386 amd64 arm arm64")...), cfgs("dragonfly", "amd64")...)
-	windowsQuick  = []Config{{"windows", "amd64"}}
-	windowsAll    = cfgs("windows", "386 amd64 arm arm64")
-	fenAll        = []Config{{"solaris", "amd64"}, {"illumos", "amd64"}}
-	fenQuick      = []Config{{"solaris", "amd64"}}
-	allBackendsQ  = concat(linuxQuick, []Config{{"freebsd", "amd64"}}, windowsQuick, fenQuick)
-	allBackendsT  = concat(linuxAll, kqueueAll, windowsAll, fenAll)
+	linuxQuick   = []Config{{"linux", "amd64"}}
+	linuxAll     = cfgs("linux", "386 amd64 arm arm64 loong64 mips mips64 mips64le mipsle ppc64 ppc64le riscv64 s390x")
+	kqueueQuick  = []Config{{"freebsd", "amd64"}, {"darwin", "arm64"}}
+	kqueueAll    = append(append(append(append(cfgs("freebsd", "386 amd64 arm arm64 riscv64"), cfgs("darwin", "amd64 arm64")...), cfgs("openbsd", "386 amd64 arm arm64 ppc64 riscv64")...), cfgs("netbsd", "386 amd64 arm arm64")...), cfgs("dragonfly", "amd64")...)
+	windowsQuick = []Config{{"windows", "amd64"}}
+	windowsAll   = cfgs("windows", "386 amd64 arm arm64")
+	fenAll       = []Config{{"solaris", "amd64"}, {"illumos", "amd64"}}
+	fenQuick     = []Config{{"solaris", "amd64"}}
+	allBackendsQ = concat(linuxQuick, []Config{{"freebsd", "amd64"}}, windowsQuick, fenQuick)
+	allBackendsT = concat(linuxAll, kqueueAll, windowsAll, fenAll)
 )
 
 func cfgs(goos, arches string) []Config {
